@@ -106,7 +106,25 @@ def stored_init(m: dict) -> bytes:
     return _STORED[key]
 
 
+_LARGE: dict[bytes, bool] = {}
+_TOKENS: dict[bytes, str] = {}
+_WALKED: dict[bytes, list] = {}
+
+
+def walk_cached(data: bytes):
+    if data not in _WALKED:
+        _WALKED[data] = mp4walk.walk(data)
+    return _WALKED[data]
+
+
 def has_largesize(data: bytes) -> bool:
+    if data in _LARGE:
+        return _LARGE[data]
+    _LARGE[data] = _has_largesize(data)
+    return _LARGE[data]
+
+
+def _has_largesize(data: bytes) -> bool:
     def any_large(boxes):
         return any(b.header_size != 8 or any_large(b.children) for b in boxes)
     return any_large(mp4walk.walk(data))
@@ -211,7 +229,10 @@ def model_line(env, c, m) -> str:
     kids, pro = code_inputs(env, m)
     v = v10(c.get("version"))
     sel = lib.effective_drm(env, c).encode().hex() or "-"
-    return (f"initrewrite {tree_tokens(stored_init(m))} {1 if m['encrypted'] else 0} {v} 1 {sel} "
+    st = stored_init(m)
+    if st not in _TOKENS:
+        _TOKENS[st] = tree_tokens(st)
+    return (f"initrewrite {_TOKENS[st]} {1 if m['encrypted'] else 0} {v} 1 {sel} "
             f"{lib.hexlist(kids)} {lib.hx(pro)} {1 if c['mode'] == 'live' else 0}")
 
 
@@ -240,7 +261,7 @@ def oracle_init(env, c, m=None, resp=None) -> list[dict]:
     R = resp.data
     fails = []
     try:
-        sb = mp4walk.walk(S)
+        sb = walk_cached(S)
         rb = mp4walk.walk(R)
     except mp4walk.WalkError as e:
         return [{"what": f"response is not a well-formed box tree: {e}", "case": c}]
@@ -360,10 +381,19 @@ def cases_for(env, sels, versions=(None,)):
                                "mode": mode, "drm": drm, "version": v}
 
 
+FULL_PRODUCT_STREAMS = ("bbb", "tears", "mk")
+
+
 def all_cases(env, versions=(None,)):
+    """thorough product: fixture tracks and the two-key stream x every base selection x PlayReady versions,
+    and x every targeted mixed-form selection (version-free); the synthetic streams (m3, va, nl, sd, lu*,
+    lay) are covered by their fixed grids and by the stratified sample"""
+    base = set(x for x in base_selections())
     for c in cases_for(env, base_selections() + lib.targeted_mixed_selections(), versions):
-        if c["version"] is not None and c["stream"] in ("lay", "nl", "m3", "va"):
-            continue          # PlayReady versions do not interact with the stored layout / key set
+        if c["stream"] not in FULL_PRODUCT_STREAMS:
+            continue
+        if c["version"] is not None and c["drm"] not in base:
+            continue
         yield c
 
 
@@ -415,6 +445,19 @@ def clock_cases(env):
             for route, mode in (("dash", "live"), ("mps", "live"), ("dash", "vod")):
                 yield {"kind": "init", "route": route, "stream": stream, "name": name, "mode": mode, "drm": drm,
                        "version": None, "now": now, "start": start}
+
+
+def source_cases(env):
+    """every option source (URL, stream default, server default) x every init route
+    (/dash live, /dash vod, /mps live, /mps vod) x encrypted tracks"""
+    tracks = [("sd", "sd_v6_enc"), ("sd", "sd_a1_enc"),          # DRM selection stored as stream default
+              ("bbb", "bbb_v6_enc"), ("mk", "mk_a1_enc")]        # no stream default: the server default (no DRM)
+    for stream, name in tracks:
+        for route in ("dash", "mps"):
+            for mode in ("live", "vod"):
+                for drm in (None, "all", "clearkey-moov", "marlin", "none"):
+                    yield {"kind": "init", "route": route, "stream": stream, "name": name, "mode": mode,
+                           "drm": drm, "version": None}
 
 
 REGRESSION = [
@@ -622,10 +665,8 @@ def run_history(env, steps, probes, baseline=None, probes_per_step=6, rng=None, 
                         f"(last {step['url']}) status {pr.status_code}, {len(pr.data)} bytes "
                         f"(sha1 {hashlib.sha1(pr.data).hexdigest()[:10]}) instead of status {b[0]}, {len(b[1])} bytes "
                         f"(sha1 {hashlib.sha1(b[1]).hexdigest()[:10]}) on a fresh application")
-            of = oracle_init(env, c, m, pr)
-            if what is None and of:
-                what = of[0]["what"]
-            elif what is not None and of:
+            of = oracle_init(env, c, m, pr) if what is not None else []     # the baseline itself was judged
+            if what is not None and of:
                 what += "; " + of[0]["what"]
             if what:
                 fails.append({"what": what, "case": {"kind": "history", "sequence": list(done), "probe": c}})
@@ -689,7 +730,7 @@ def ch_history(ctx, env) -> Channel:
         "request; distinct by (step index, probe)"))
     rng = ctx.rng("history")
     probes = history_probes(env)
-    steps = history_steps(env, rng, ctx.scale(40, 1500))
+    steps = history_steps(env, rng, ctx.scale(40, 800))
     fails, stats, baseline = run_history(env, steps, probes, rng=rng, probes_per_step=ctx.scale(6, 12))
     ch.evaluations = stats["probes"] + stats["steps"] + len(probes)
     for st, n in sorted(stats["statuses"].items()):
@@ -752,6 +793,10 @@ def via_manifest_cases(env, rng) -> list[dict]:
     for i, drm in enumerate(sels):
         route, stream, mf, mode = combos[i % len(combos)]
         cases.append({"kind": "via_manifest", "route": route, "stream": stream, "manifest": mf, "mode": mode, "drm": drm})
+    # selection coming from the stream defaults: single-period manifest of `sd`, and the multi-period
+    # manifest (which has `sd` as one of its periods), both without a drm parameter
+    for route, mode in (("dash", "vod"), ("dash", "live"), ("mps", "vod"), ("mps", "live")):
+        cases.append({"kind": "via_manifest", "route": route, "stream": "sd", "manifest": "hand_made.mpd", "mode": mode, "drm": None})
     return cases
 
 
@@ -761,7 +806,7 @@ def run_via_manifest(env, c, only_rep: str | None = None):
     segment against the selection the MANIFEST was asked with.  -> [(init case, media, response, url)]"""
     import appboot
     client = env.app.client()
-    params = {"drm": c["drm"]}
+    params = {"drm": c["drm"]} if c.get("drm") is not None else {}
     if c["route"] == "mps":
         url = f"/mps/{c['mode']}/{c11_env.MPS_NAME}/{c['manifest']}" + lib.query(params)
     else:
@@ -868,6 +913,16 @@ def channels(ctx):
     versions = (None, "1.0", "2.0", "3.0", "4.0")
     if ctx.thorough:
         cases = list(all_cases(env, versions))
+        sels = base_selections() + lib.targeted_mixed_selections()
+        mps_streams = {d for _, d in env.mps_periods}
+        for m in [x for x in env.media() if x["stream"] not in FULL_PRODUCT_STREAMS + ("mx",)]:
+            for mode in ("vod", "live"):
+                for route in ("dash", "mps"):
+                    if route == "mps" and m["stream"] not in mps_streams:
+                        continue
+                    for drm in rng.sample(sels, 4 if m["stream"] == "lay" else 10):
+                        cases.append({"kind": "init", "route": route, "stream": m["stream"], "name": m["name"],
+                                      "mode": mode, "drm": drm, "version": rng.choice(versions)})
     else:
         # stratified: every track x mode x route gets its own draw of selections, so adding a stream
         # does not dilute the others
@@ -885,7 +940,7 @@ def channels(ctx):
                                       "mode": mode, "drm": drm, "version": None})
         for c in cases[::6]:
             c["version"] = rng.choice(versions + ("3", "2.00", "none"))
-    cases = [dict(c) for c in REGRESSION] + list(layout_cases(env)) + list(clock_cases(env)) + cases \
+    cases = [dict(c) for c in REGRESSION] + list(source_cases(env)) + list(layout_cases(env)) + list(clock_cases(env)) + cases \
         + mixed_cases(env, rng, ctx.scale(120, 3000))
     evaluate(env, cases, ch)
     yield ch
@@ -1034,7 +1089,7 @@ def search(ctx, disagreements):
         if f:
             return f[0]
     rng = ctx.rng("search")
-    pool = itertools.chain(seeds, REGRESSION, clock_cases(env), layout_cases(env), mixed_cases(env, rng, 500), all_cases(env, (None, "1.0", "4.0")))
+    pool = itertools.chain(seeds, REGRESSION, source_cases(env), clock_cases(env), layout_cases(env), mixed_cases(env, rng, 500), all_cases(env, (None, "1.0", "4.0")))
     if not ctx.thorough:
         pool = itertools.islice(pool, 5000)        # keep the quick tier bounded when a proof obligation breaks
     for c in pool:
